@@ -135,4 +135,14 @@ CHECKS["C11"] = {
     "parts": [{"bin": "C11_bulk_grid", "part": "grid"}, {"bin": "C11_bulk", "part": "schedules"}],
 }
 
+CHECKS["C10"] = {
+    "registered": True,
+    "engine": "pmc-rt",
+    "technique": "stateless preemption-bounded exhaustive schedule enumeration of placement programs on a live runtime with two pools / static policies; every callable records pool, worker, task-ness and whether it ran inside the submitting call",
+    "level_text": "Every schedule within the deviation bound of pipelines over a default(2)+aux(1) pool layout (schedule/then/continues_on, execute, transfer_just, bulk, priority and hint properties, submitted from the main thread and from a task), of a hinted normal-priority task with yields and a suspension under the static and static-priority policies (hint and waker placement enumerated) and of std_thread_scheduler work is executed on the real runtime; each callable must run as a task of the denoted pool, never inside the submitting call, every phase of the hinted task on the hinted worker, and std_thread_scheduler work on a fresh non-pika thread.",
+    "level_note": "Sequentially consistent interleavings only; one pool layout, 2 static policies; choice points at the rmw/cas sites of set_thread_state/set_active_state, the schedulers' schedule_thread/create_thread, thread_pool_scheduler, schedule_from and scheduling_loop plus the watched state words and event.",
+    "rule": "pmc-rt: placement programs (data choices) x all schedules within the deviation bound",
+    "parts": [{"bin": "C10_placement"}],
+}
+
 PENDING = {}
